@@ -1233,6 +1233,9 @@ var msgMatchers = []msgMatcher{
 			{"one byte after the message", winboxMsg("admin", 32, 1, 6, 1), "no"},
 			{"header only", winboxMsg("admin", 32, 1, 6, 0)[:2], "more"},
 			{"message cut in the key", winboxMsg("admin", 32, 1, 6, 0)[:20], "more"},
+			{"two chunks, cut inside the second chunk", func() []byte { b := winboxLong(230, -1); return b[:len(b)-3] }(), "more"},
+			{"two chunks, cut behind the second chunk's length byte", winboxLong(230, -1)[:258], "more"},
+			{"two chunks, cut inside the first chunk", winboxLong(230, -1)[:200], "more"},
 			{"one byte", []byte{39}, "more"},
 			{"empty", []byte{}, "more"},
 			{"http", []byte("GET / HTTP/1.1\r\nHost: example.com\r\nAccept: */*\r\n\r\n"), "no"},
